@@ -438,6 +438,15 @@ def run(tier, seed):
                   c16.shift_grid_tie(shg, "capture")))
     parts.append(("origin-shift loop: capture + classify on the shifted polygons (in scope, full oracle)",
                   gg.impl_campaign(c16.shift_cases(shg, cmd="capture", oracle_name="c17", obs=("wf", "snap", "classify", "snap")), oracle)))
+    zp = []
+    for z in (c16.zonogon_geometry(rng) for _ in range(20 * mult)):
+        if z:
+            sg = z.segs[:]
+            rng.shuffle(sg)
+            zp.append((z, sg))
+    parts.append(("whole capture pipeline hook by hook (segments, slots, darts, edge data, insert_edges with node anchors, clip, classify), "
+                  "model vs implementation, and = capture_geometry up to renumbering: zonogons, non-convex exact polygons, edges through corners",
+                  c16.pipeline5_tie(zp + c16.corner_geometries(rng, 20 * mult, want_corner=False) + c16.corner_geometries(rng, 20 * mult), True, "cpipe")))
     parts.append(("classify: hand-made anchored grids, model vs implementation", hv.campaign(grid_cases(rng, 150 * mult), None)))
     parts.append(("classify: all well-formed 2-maps with <= 3 darts (+ sampled 4-dart maps), model vs implementation",
                   hv.campaign(small_map_cases(rng, 4, 600 * mult), None)))
